@@ -20,7 +20,10 @@ ensure_batching_not_mapped_attr()
 def _handle_scalar_broadcasting(ndim: int, x: Any, dim: Any) -> Any:
     if dim is NOT_MAPPED or ndim == np.ndim(x):
         return x
-    return lax.expand_dims(x, tuple(range(np.ndim(x), ndim)))
+    # The batch axis sits at the front and NumPy broadcasting aligns trailing
+    # axes, so the axes a lower-rank operand lacks go right behind the batch axis
+    # (for a per-example scalar this is the same as appending them).
+    return lax.expand_dims(x, tuple(range(1, 1 + ndim - np.ndim(x))))
 
 
 def broadcast_batcher_compat(
